@@ -211,6 +211,13 @@ def _check_fixed(run, rule, sp, cx, key):
                 why = "bytes %s violate mask %s == %s" % (v[1].hex(), arg[0].hex(), arg[1].hex())
             else:
                 good = True    # computed value: bit pattern is value-level
+        elif kind == "pred":
+            # a constant byte pattern with a conditional reserved part (transcribed predicate over the constant bytes)
+            if v[0] == "const":
+                good = bool(arg[0](v[1]))
+                why = "bytes %s violate: %s" % (v[1].hex(), arg[1])
+            else:
+                good = True    # computed value: bit pattern is value-level
         elif kind == "val":
             good, why = role_ok(arg, v, cx)
             why = "%s: found %s" % (why, v[1].hex() if v[0] == "const" else L.show(v[1]))
